@@ -102,7 +102,7 @@ PROPS = {
     "C07": {
         "lean": ["AriVerif.Props.C07"],
         "gen": [],
-        "streams": [s_wire.stream_writers, s_wire.stream_meta],
+        "streams": [s_wire.stream_writers, s_wire.stream_meta, s_conc.data_stream(["C07"], "data-cosim-illtyped-events")],
         "trusted": [KERNEL, HARNESS, "Spec/Reply.lean (the conforming reply decoder incl. base64) is hand-written from the protocol",
                     "floats are opaque: the line carries CPython's repr verbatim; float(repr(x)) == x is CPython's contract, tested on "
                     "random doubles of all binades by the writers differential (repr compared), not proved",
